@@ -8,11 +8,15 @@ CONSTANTS MsgId,      \* catalog id of the message type
           RawLen, RawAlphabet, Arbitrary
 
 MT == TypeOf(MsgId)
-GenLen == RoomyMin(MT) + 2 * Align(MT) + 1
+\* (a FlexVec message gets room for a second and third item: reads / writes that end exactly at an item boundary)
+GenLen == RoomyMin(MT) + 2 * Align(MT) + 1 + (IF MT.k = "flex" THEN 2 * (FlexOffsetSize(MT) + CeilMul(MinSize(MT.elem[1]), Align(MT))) ELSE 0)
 \* message contents: spread over the tree universe of a generous slice
 Conts == LET tv == TV(MT, GenLen)  n == Len(tv)  m == MinI(n, 5)
              idx(j) == IF m = 1 THEN 1 ELSE 1 + ((j - 1) * (n - 1)) \div (m - 1)
-         IN [j \in 1..m |-> Content(tv[idx(j)], MT)]
+             \* for a FlexVec message the middle pick is a tree with the most items
+             most == CHOOSE i \in 1..n : \A k \in 1..n : Len(tv[i].items) >= Len(tv[k].items)
+             pick(j) == IF MT.k = "flex" /\ j = (m + 1) \div 2 THEN most ELSE idx(j)
+         IN [j \in 1..m |-> Content(tv[pick(j)], MT)]
 MaxLenOf(cs) == LET RECURSIVE go(_) go(i) == IF i > Len(cs) THEN MinSize(MT) ELSE MaxI(Size(Build(cs[i], MT, 4 * GenLen).tree, MT), go(i + 1)) IN go(1)
 MML == MaxLenOf(Conts)
 BufCap == IF CapExtra < 1000 THEN CeilMul(MaxI(MML, MinSize(MT)) + CapExtra, Align(MT)) ELSE 2 * MaxI(MML, MinSize(MT))
@@ -30,11 +34,16 @@ Strs(n) == IF n = 0 THEN << <<>> >> ELSE LET p == Strs(n - 1) al == SetToSeq(Raw
            p \o Flatten([i \in 1..Len(p) |-> IF Len(p[i]) = n - 1 THEN [j \in 1..Len(al) |-> Append(p[i], al[j])] ELSE <<>>])
 Mutated == LET b == ValidStreams[1].bytes IN
            Flatten([i \in 1..Len(b) |-> [j \in 1..3 |-> [b EXCEPT ![i] = <<1, 200, 255>>[j]]]])
+\* a stream that starts with the richest message, undetermined bytes zero, one byte moved by +2 / -2: offsets and lengths that
+\* stay aligned for the length type but not for the value (a link into the padding of the next slot reads as a terminator)
+MutatedAligned == LET sq == Seqs[(Len(Conts) + 1) \div 2]
+                      b == Flatten([i \in 1..NMsgs |-> MsgBytes(Conts[sq[i]], 0)]) IN
+                  Flatten([i \in 1..MinI(Len(b), 16) |-> [j \in 1..2 |-> [b EXCEPT ![i] = (b[i] + <<2, 254>>[j]) % 256]]])
 Truncated == LET b == ValidStreams[1].bytes IN [i \in 1..(Len(b) - 1) |-> SubSeq(b, 1, i)]
 \* a header announcing more than fits, followed by enough bytes to fill the buffer (buffer exhaustion, not a hang)
 MutatedLong == LET b == ValidStreams[1].bytes IN
                [i \in 1..Len(b) |-> [b EXCEPT ![i] = 255] \o Rep(BufCap + 3, 85)]
-ArbStreams == LET all == Strs(RawLen) \o Mutated \o Truncated \o MutatedLong IN [i \in 1..Len(all) |-> [bytes |-> all[i], nmsg |-> -1, msgs |-> <<>>]]
+ArbStreams == LET all == Strs(RawLen) \o Mutated \o MutatedAligned \o Truncated \o MutatedLong IN [i \in 1..Len(all) |-> [bytes |-> all[i], nmsg |-> -1, msgs |-> <<>>]]
 MCStreams == IF Arbitrary THEN ArbStreams ELSE ValidStreams
 
 (***************************************************************************)
